@@ -19,7 +19,7 @@ from sfc_models.gl_book.model_SIM_iterative import ModelSIMiterative  # noqa
 ID = 'C09'
 LEVEL = 'exploration'
 RULE = ('state = (parameter point, period); grids: alpha1 x alpha2 x theta x G-path x initial wealth (SIM), x initial expected income (SIMEX1), '
-        'x lambda0 x lambda1 x lambda2 x r-path x initial stocks {none, book, all-cash with zero bills} (PC), theta x alpha1 x alpha2 x G x H0 (iterative SIM); series Y, T, YD, C, H/V, '
+        'x lambda0 x lambda1 x lambda2 x r-path x initial stocks {none, book, all-cash with zero bills} (PC), theta x alpha1 x alpha2 x G x H0 (iterative SIM), SIM and SIMEX1 embedded together in one Model through the builders\' model= argument; series Y, T, YD, C, H/V, '
         'bills, money for every period k >= 1; oracle: closed-form recursion over Fractions; two runs per point: solver tolerance 1e-12 (hold '
         '<= 1e-8 relative, violated >= 1e-6) and the default tolerance (hold <= 2e-4, violated >= 5e-3); non-trivial = converged points')
 ASSUMPTIONS = [
@@ -157,6 +157,52 @@ def run_pc(a1, a2, th, l0, l1, l2, gname, rname, stocks, n, tol):
             'B': g('HH__DEM_DEP'), 'M': g('HH__DEM_MON')}
 
 
+def run_pair(a1, a2, th, gname, n, tol):
+    """Two bundled economies embedded in ONE Model through the builders' model= argument (different currencies, no flows
+    between them): CA = SIM with the unit's parameters, US = SIMEX1 with other parameters."""
+    from sfc_models.models import Model
+    m = Model()
+    SIM('CA', model=m, use_book_exogenous=False).build_model()
+    SIMEX1('US', model=m, use_book_exogenous=False).build_model()
+    ca, us = m['CA'], m['US']
+    ca['HH'].AlphaIncome, ca['HH'].AlphaFin, ca['TF'].TaxRate = a1, a2, th
+    us['HH'].AlphaIncome, us['HH'].AlphaFin, us['TF'].TaxRate = 0.7, 0.2, 0.25
+    ca['GOV'].SetExogenous('DEM_GOOD', path_text(GPATHS[gname], n + 2))
+    us['GOV'].SetExogenous('DEM_GOOD', path_text(GPATHS['alternating'], n + 2))
+    us['HH'].AddInitialCondition('F', 40.)
+    us['GOV'].AddInitialCondition('F', -40.)
+    m.MaxTime = n
+    m.EquationSolver.MaxIterations = 100000
+    if tol is not None:
+        m.EquationSolver.ParameterErrorTolerance = tol
+    m.main()
+    g = m.GetTimeSeries
+    return ({'Y': g('CA_GOOD__SUP_GOOD'), 'T': g('CA_GOV__T'), 'YD': g('CA_HH__AfterTax'), 'C': g('CA_HH__DEM_GOOD'), 'H': g('CA_HH__F')},
+            {'Y': g('US_GOOD__SUP_GOOD'), 'T': g('US_GOV__T'), 'YD': g('US_HH__AfterTax'), 'C': g('US_HH__DEM_GOOD'), 'H': g('US_HH__F')})
+
+
+def check_pair(case):
+    n = case['horizon']
+    a1, a2, th = frac(case['a1']), frac(case['a2']), frac(case['th'])
+    try:
+        ca, us = run_pair(case['a1'], case['a2'], case['th'], case['G'], n, 1e-12)
+    except Exception as e:
+        if type(e).__name__ == 'ConvergenceError':
+            return [], 1, False
+        return [core.violation('model-fails:pair:' + type(e).__name__, 'embedded SIM+SIMEX1 raised %s: %s' % (type(e).__name__, str(e)[:150]), case)], 0, False
+    out = []
+    indet = 0
+    v, i = judge(ca, sim_closed(a1, a2, th, GPATHS[case['G']], Fr(0), n), 1e-8, 1e-6, case, 'SIM-embedded')
+    indet += i
+    if v:
+        out.append(v)
+    v, i = judge(us, simex_closed(Fr('0.7'), Fr('0.2'), Fr('0.25'), GPATHS['alternating'], Fr(40), Fr(0), n), 1e-8, 1e-6, case, 'SIMEX1-embedded')
+    indet += i
+    if v:
+        out.append(v)
+    return out, indet, True
+
+
 def judge(series, closed, lo, hi, case, model):
     """Returns (violation|None, indeterminate count)."""
     indet = 0
@@ -273,6 +319,17 @@ def run_unit(unit, tier):
             core.bump(res['outcomes'], 'ITER:' + ('ok' if not viols else 'violation'))
             res['violations'].extend(viols)
         res['samples'] = [{'model': 'ModelSIMiterative', 'grid': 'alpha1 x alpha2 x theta x G x H0'}]
+    if fam == 'SIM':
+        for G in ('const20', 'step20-25'):
+            case = {'model': 'PAIR', 'a1': unit['a1'], 'a2': unit['a2'], 'th': unit['th'], 'G': G, 'horizon': unit['horizon']}
+            dig.add(sorted(case.items()))
+            viols, indet, conv = check_pair(case)
+            res['evaluations'] += 1
+            if conv:
+                res['nontrivial'] += 1
+            res['indeterminate'] += indet
+            core.bump(res['outcomes'], 'PAIR:' + ('ok' if not viols else 'violation'))
+            res['violations'].extend(viols)
     for case in cases:
         dig.add(sorted(case.items()))
         viols, indet, conv = check_point(case)
@@ -293,6 +350,8 @@ def run_unit(unit, tier):
 
 
 def replay(case):
+    if case['model'] == 'PAIR':
+        return check_pair(case)[0][:1]
     if case['model'] == 'ITER':
         return check_iterative(case)[0][:1]
     c = dict(case)
